@@ -565,6 +565,15 @@ private:
         return new_segment_table;
     }
 
+    // All segments of the first block share the address stored for segment 0. The thread that allocated the
+    // first block may fail (when it extends the segment table) before it has stored the address for each of
+    // them, so a thread that needs one of these segments stores it itself instead of waiting.
+    void publish_first_block_segment( segment_table_type table, segment_index_type seg_index ) {
+        segment_type first_block_segment = table[0].load(std::memory_order_acquire);
+        segment_type disabled_segment = nullptr;
+        table[seg_index].compare_exchange_strong(disabled_segment, first_block_segment);
+    }
+
     // create_segment function is required by the segment_table base class
     segment_type create_segment( segment_table_type table, segment_index_type seg_index, size_type index ) {
         size_type first_block = this->my_first_block.load(std::memory_order_relaxed);
@@ -572,7 +581,7 @@ private:
         if (seg_index < first_block) {
             // If 0 segment is already allocated, then it remains to wait until the segments are filled to requested
             if (table[0].load(std::memory_order_acquire) != nullptr) {
-                spin_wait_while_eq(table[seg_index], segment_type(nullptr));
+                publish_first_block_segment(table, seg_index);
                 return nullptr;
             }
 
@@ -593,20 +602,20 @@ private:
 
             segment_type disabled_segment = nullptr;
             if (table[0].compare_exchange_strong(disabled_segment, new_segment)) {
+                // Other threads can wait on a snapshot of an embedded table, need to fill it.
+                // It is filled first: extending the table may fail.
+                for (size_type i = 1; i < first_block && i < this->pointers_per_embedded_table; ++i) {
+                    this->my_embedded_table[i].store(new_segment, std::memory_order_release);
+                }
                 this->extend_table_if_necessary(table, /*start_index*/0, /*end_index*/first_block_size);
                 for (size_type i = 1; i < first_block; ++i) {
                     table[i].store(new_segment, std::memory_order_release);
                 }
-
-                // Other threads can wait on a snapshot of an embedded table, need to fill it.
-                for (size_type i = 1; i < first_block && i < this->pointers_per_embedded_table; ++i) {
-                    this->my_embedded_table[i].store(new_segment, std::memory_order_release);
-                }
             } else if (new_segment != this->segment_allocation_failure_tag) {
                 // Deallocate the memory
                 segment_element_allocator_traits::deallocate(segment_allocator, new_segment, first_block_size);
-                // 0 segment is already allocated, then it remains to wait until the segments are filled to requested
-                spin_wait_while_eq(table[seg_index], segment_type(nullptr));
+                // 0 segment is already allocated, the other segments of the first block share its address
+                publish_first_block_segment(table, seg_index);
             }
         } else {
             size_type offset = this->segment_base(seg_index);
@@ -622,7 +631,12 @@ private:
                     table[seg_index].store(new_segment, std::memory_order_release);
                 });
             } else {
-                spin_wait_while_eq(table[seg_index], segment_type(nullptr));
+                // Wait for the thread that enables this segment; it gives the segment up if the table cannot be extended
+                for (atomic_backoff backoff; table[seg_index].load(std::memory_order_acquire) == nullptr; backoff.pause()) {
+                    if (this->my_segment_table_allocation_failed.load(std::memory_order_relaxed)) {
+                        throw_exception(exception_id::bad_alloc);
+                    }
+                }
             }
         }
         return nullptr;
@@ -829,6 +843,13 @@ private:
 
     template <typename... Args>
     iterator internal_grow( size_type start_idx, size_type end_idx, const Args&... args ) {
+        // The segments whose first element lies in [start_idx, end_idx) are enabled by this call only, one by one
+        // as the construction reaches them. If the call fails they must not stay disabled, otherwise other
+        // growth calls that share them wait forever.
+        auto segments_guard = make_raii_guard( [&] {
+            mark_owned_segments_failed(start_idx, end_idx);
+        });
+
         size_type seg_index = this->segment_index_of(end_idx - 1);
         this->assign_first_block_if_necessary(seg_index + 1);
         segment_table_type table = this->get_table();
@@ -847,8 +868,31 @@ private:
         }
 
         internal_loop_construct(table, start_idx, end_idx, args...);
+        segments_guard.dismiss();
 
         return iterator(*this, start_idx, &base_type::template internal_subscript</*allow_out_of_range_access=*/false>(start_idx));
+    }
+
+    // Marks the still disabled segments, whose first element lies in [start_idx, end_idx), as failed
+    void mark_owned_segments_failed( size_type start_idx, size_type end_idx ) {
+        segment_table_type table = this->get_table();
+        segment_index_type last_segment = this->segment_index_of(end_idx - 1);
+        if (table == this->my_embedded_table && last_segment >= this->pointers_per_embedded_table) {
+            // The long table could not be allocated; whoever needs its segments is told so by the table itself
+            last_segment = this->pointers_per_embedded_table - 1;
+        }
+        for (segment_index_type seg_idx = this->segment_index_of(start_idx); seg_idx <= last_segment; ++seg_idx) {
+            size_type first_element = this->segment_base(seg_idx);
+            if (first_element >= start_idx && first_element < end_idx) {
+                segment_type disabled_segment = nullptr;
+                table[seg_idx].compare_exchange_strong(disabled_segment, this->segment_allocation_failure_tag);
+                // Other threads can wait on a snapshot of an embedded table
+                if (table != this->my_embedded_table && seg_idx < this->pointers_per_embedded_table) {
+                    disabled_segment = nullptr;
+                    this->my_embedded_table[seg_idx].compare_exchange_strong(disabled_segment, this->segment_allocation_failure_tag);
+                }
+            }
+        }
     }
 
 
@@ -881,13 +925,21 @@ private:
         if (end_segment >= this->pointers_per_embedded_table &&
             this->get_table() == this->my_embedded_table)
         {
-            spin_wait_while_eq(this->my_segment_table, this->my_embedded_table);
+            // The thread that extends the table may fail to allocate it
+            for (atomic_backoff backoff; this->get_table() == this->my_embedded_table; backoff.pause()) {
+                if (this->my_segment_table_allocation_failed.load(std::memory_order_relaxed)) {
+                    throw_exception(exception_id::bad_alloc);
+                }
+            }
         }
 
         for (segment_index_type seg_idx = 0; seg_idx <= end_segment; ++seg_idx) {
             if (this->get_table()[seg_idx].load(std::memory_order_relaxed) == nullptr) {
                 atomic_backoff backoff(true);
                 while (this->get_table()[seg_idx].load(std::memory_order_relaxed) == nullptr) {
+                    if (this->my_segment_table_allocation_failed.load(std::memory_order_relaxed)) {
+                        throw_exception(exception_id::bad_alloc);
+                    }
                     backoff.pause();
                 }
             }
